@@ -1,4 +1,4 @@
-CONSTANTS MaxCalls = 4  MaxCont = 2  MaxTrail = 1  DoneInit = "count"  HoldItems = FALSE
+CONSTANTS MaxCalls = 4  MaxCont = 2  MaxTrail = 1  WithGenErr = TRUE  DoneInit = "count"  HoldItems = FALSE
 SPECIFICATION Spec
 INVARIANT ChainInv
 INVARIANT NoLiveBorrowClobbered
